@@ -825,7 +825,14 @@ func (x *Exec) execRangeFunc(n *ast.RangeStmt, st *State, label string) *State {
 		st.vars[valObj] = c.zeroVal(valObj.Type(), nil)
 	}
 	x.checkInvs(ls, st, "inv-entry", ord, n.Body.Lbrace)
-	ms := x.modifiedIn(n.Body)
+	// the iterator runs interleaved with the body: objects reachable from its receiver and arguments
+	// (a reader's stream position, a scanner) and the heap fields it declares change between iterations
+	ms := x.modifiedIn(n.Body, call)
+	if ct := c.eng.contracts[qn]; ct != nil {
+		for _, h := range ct.ModifiesHeap {
+			ms.heap[h] = true
+		}
+	}
 	ms.vars[idxObj] = true
 	if keyObj != nil {
 		ms.vars[keyObj] = true
